@@ -58,7 +58,7 @@ CONFIGS = {
     "C20": ["MC_ready", "MC_single", "MC_elect", "MC_change"],
 }
 
-REPLAY_BUDGET = {"quick": 60000, "thorough": 1500000}   # events replayed on the real code per model
+REPLAY_BUDGET = {"quick": 600000, "thorough": 6000000}   # schedule steps replayed on the real code per model (before merging)
 
 
 def run_tlc(name, module, tier, outdir, seed, workers=12, timeout=None):
@@ -114,6 +114,21 @@ def leaves(schedules):
         for n in range(1, len(k)):
             prefixes.add(k[:n])
     return [h for h, k in zip(schedules, keys) if k not in prefixes]
+
+
+def add_kids(trace):
+    """Adds to every line of a merged replay tree the list of the lines that follow it."""
+    rows = []
+    kids = {}
+    with open(trace) as f:
+        for k, line in enumerate(f, 1):
+            e = json.loads(line)
+            rows.append(e)
+            kids.setdefault(e.get("parent", k - 1), []).append(e.get("id", k))
+    with open(trace, "w") as o:
+        for k, e in enumerate(rows, 1):
+            e["kids"] = kids.get(e.get("id", k), [])
+            o.write(json.dumps(e) + "\n")
 
 
 def judge_traces(trace, outdir, tag, parts=8):
@@ -188,20 +203,45 @@ def run(pid, tier, seed, outdir):
                 chosen.append(h)
                 acc += len(h)
         spec_viol = [v for v in mcviol if any(b.startswith(pid + ".") for b in v["bad"])]
-        lines = os.path.join(outdir, name + ".schedules.ndjson")
-        with open(lines, "w") as o:
-            for v in spec_viol[:50]:
-                o.write(json.dumps({"h": v["h"], "mcviol": v["bad"]}) + "\n")
-            for h in chosen:
-                o.write(json.dumps({"h": h}) + "\n")
+        # the schedules are merged into a few tries (one per parallel TLC instance): an event shared by many
+        # schedules is executed by every schedule but written and judged once
+        groups = 8 if len(chosen) >= 64 else 1
+        chosen.sort(key=lambda h: json.dumps(h, sort_keys=True))
+        per = (len(chosen) + groups - 1) // groups if chosen else 1
         cfgjson = os.path.join(outdir, name + ".cluster.json")
         json.dump(ccfg, open(cfgjson, "w"))
-        trace = os.path.join(outdir, name + ".replay.ndjson")
-        p = vlib.run([vlib.SIMRUN, "replaymc", "--lines", lines, "--cfg", cfgjson, "--out", trace], timeout=3000)
-        m = re.search(r"replayed (\d+) schedules, (\d+) events, (\d+) inapplicable", p.stdout)
-        n_sched, n_ev, n_skip = (int(m.group(1)), int(m.group(2)), int(m.group(3))) if m else (0, 0, 0)
-        res = judge_traces(trace, outdir, name)
-        os.remove(trace)
+        n_sched = n_ev = n_skip = 0
+        parts = []
+        sched_of = {}
+        for g in range(groups):
+            sub = ([{"h": v["h"], "mcviol": v["bad"]} for v in spec_viol[:50]] if g == 0 else []) + \
+                  [{"h": h} for h in chosen[g * per:(g + 1) * per]]
+            if not sub:
+                continue
+            lines = os.path.join(outdir, "%s.schedules.%d.ndjson" % (name, g))
+            with open(lines, "w") as o:
+                for x in sub:
+                    o.write(json.dumps(x) + "\n")
+            trace = os.path.join(outdir, "%s.replay.%d.ndjson" % (name, g))
+            p = vlib.run([vlib.SIMRUN, "replaymc", "--tree", "--lines", lines, "--cfg", cfgjson, "--out", trace], timeout=3000)
+            m = re.search(r"replayed (\d+) schedules, (\d+) events, (\d+) inapplicable", p.stdout)
+            if m:
+                n_sched += int(m.group(1)); n_ev += int(m.group(2)); n_skip += int(m.group(3))
+            add_kids(trace)
+            parts.append((trace, lines))
+
+        def one(item):
+            return vlib.tlc_trace(item[0], item[0] + ".md", timeout=3000, heap="8g")
+
+        res = {"violations": [], "states": 0, "drift": []}
+        with ThreadPoolExecutor(max_workers=max(1, len(parts))) as ex:
+            for (trace, lines), r in zip(parts, ex.map(one, parts)):
+                for v in r["violations"]:
+                    v["lines"] = lines
+                res["violations"] += r["violations"]
+                res["drift"] += r["drift"]
+                res["states"] += r["states"]
+                os.remove(trace)
         mine = [v for v in res["violations"] if any(nm.startswith(pid + ".") for nm in v["names"])]
         model = {"model": cfgfile, "tlc_states_generated": gen, "tlc_distinct_states": distinct, "tlc_complete": bool(ok and complete),
                  "tlc_wall_s": round(wall, 1), "schedules_printed": len(schedules), "maximal_schedules": len(lv),
@@ -218,7 +258,7 @@ def run(pid, tier, seed, outdir):
         # the run index inside a part file identifies the schedule
         for v in mine[:10]:
             rp = os.path.join(outdir, "replay-%s-%s-run%d.json" % (name, v["names"][0], v["run"]))
-            with open(lines) as f:
+            with open(v["lines"]) as f:
                 for k, line in enumerate(f, 1):
                     if k == v["run"]:
                         sched = json.loads(line)
@@ -231,5 +271,5 @@ def run(pid, tier, seed, outdir):
                               (",".join(n for n in v["names"] if n.startswith(pid + ".")), name, v["run"], v["seq"]))
         if spec_viol and not mine:
             raise vlib.ToolError("the specification violates %s at %s but the real code does not reproduce it: the spec "
-                                 "misrepresents the code (schedules kept in %s)" % (spec_viol[0]["bad"], cfgfile, lines))
+                                 "misrepresents the code (schedules kept in %s)" % (spec_viol[0]["bad"], cfgfile, outdir))
     return {"coverage": cov, "violations": viol_lines}
